@@ -240,11 +240,13 @@ def cmdReAST (f : List String) : String :=
     let s := patternOf h
     match parseGen s with
     | .ok p =>
-      let (st, fin, tr) := Follow.toDFA (Follow.build Gen.Regex.runeClasses p)
+      match Follow.toDFA (Follow.build Gen.Regex.runeClasses p) with
+      | none => "FUEL"
+      | some (st, fin, tr) =>
       let groups := tr
       "OK start=0 finals=" ++ joinWith "," (fin.map toString) ++ " trans=" ++
         joinWith ";" (groups.map fun (s, t, cs) => toString s ++ ">" ++ toString t ++ ":" ++ joinWith "," (rangesStr (sortNat cs)))
-        ++ " states=" ++ toString st
+        ++ " states=" ++ toString st ++ " spined=" ++ (if Follow.spined p then "1" else "0")
     | o => outcomeStr s o
   | _ => "BAD-ARGS"
 
